@@ -42,11 +42,21 @@ func (c vcase) ieeeLine() (string, bool) {
 	return "", false
 }
 
-var decimalFractions = []float64{0.1, 0.01, 0.3, 1e-9, 1.0 / 3, 0.05, 0, 0.7}
+var decimalFractions = []float64{0.1, 0.01, 0.3, 1e-9, 1.0 / 3, 0.05, 0, 0.7, 2.5}
 var decimalMargins = []float64{0, 0.1, 0.001, 1e-12, 0.5, 0.3, 2.2}
 
 func (g *gen) roundingFloat() float64 {
-	switch g.r.Intn(7) {
+	switch g.r.Intn(8) {
+	case 7:
+		// the top of the range: differences and products overflow to ±Inf
+		f := math.Float64frombits(g.r.Uint64()&^(0x7ff<<52) | uint64(2040+g.r.Intn(7))<<52)
+		if g.r.Intn(4) == 0 {
+			f = math.MaxFloat64
+		}
+		if g.r.Intn(2) == 0 {
+			f = -f
+		}
+		return f
 	case 0:
 		return float64(g.r.Intn(4001)-2000) / 10
 	case 1:
@@ -75,7 +85,7 @@ func nudgeUlps(f float64, n int) float64 {
 
 func runIEEE(f lib.Flags, res *lib.Result, drv *lib.Driver) {
 	tie := res.Tie("ieee-rounding", "K1",
-		"inputs on which float64/float32 arithmetic rounds: FloatValueApprox(fraction, margin) with decimal fractions/margins (0.1, 0.01, 1/3, 1e-9, ...) on x from decimals, thirds, 1e15-scale, float32-rounded, random-mantissa and subnormal values, y = x ± margin / x·(1 ± fraction) computed in float64 and moved by -2..2 ulps (so the comparison sits on the rounding boundary), also across signs; DurationValueWithinP(p) with decimal percentages on int64 durations beyond 2^53 (conversions round), on the boundary x = y·(1 ± p/100) ± 2ns, 1-2 ns apart at huge magnitudes, across signs. Model side: the driver's IEEE tier (Lean core Float/Float32, same operation order as the code). Non-trivial: distinct inputs")
+		"inputs on which float64/float32 arithmetic rounds: FloatValueApprox(fraction, margin) with decimal fractions/margins (0.1, 0.01, 1/3, 1e-9, ...) on x from decimals, thirds, 1e15-scale, float32-rounded, random-mantissa, subnormal and top-of-range values (differences and products overflow to ±Inf), y = x ± margin / x·(1 ± fraction) computed in float64 and moved by -2..2 ulps (so the comparison sits on the rounding boundary), also across signs; DurationValueWithinP(p) with decimal percentages on int64 durations beyond 2^53 (conversions round), on the boundary x = y·(1 ± p/100) ± 2ns, 1-2 ns apart at huge magnitudes, across signs. Model side: the driver's IEEE tier (Lean core Float/Float32, same operation order as the code). Non-trivial: distinct inputs")
 	g := &gen{r: lib.NewRand(f.Seed + 15485863)}
 	dbl := posOf("default_double").fd()
 	dur := posOf("default_duration").fd()
